@@ -194,6 +194,25 @@ def run_property(prop, tier, seed, mods, jobs=16, only='', rebaseline=False, t0=
                     known_hits.append((k, entry))
                 else:
                     undecided.append(entry)
+        # sampled failures of the fallback that no symbolic obligation accounts for (e.g. the code left the
+        # interpreter's subset, so only `within-subset` is listed): report them under their own clause label
+        reported = {v['label'] for v in violations if v.get('contract') == cname and v.get('case') == case}
+        for f in (r.get('sampled') or {}).get('failures', []) or []:
+            for lab in f.get('violated', [])[:1]:
+                lab0 = lab.split(' (')[0]
+                if lab0 in reported or lab0 in per_label and all(o['verdict'] == 'unsat' for o in per_label[lab0]):
+                    continue
+                if any(lab0 == l for l in reported):
+                    continue
+                reported.add(lab0)
+                entry = {'obligation': f'{prop}/{cname}/{case}/{lab0}', 'contract': cname, 'case': case, 'label': lab0,
+                         'input': f, 'how': 'sampled evaluation of the same contract on the real function '
+                         '(the symbolic run was undecided)'}
+                k = _match_known(known, cname, case, lab0)
+                if k:
+                    known_hits.append((k, entry))
+                else:
+                    violations.append(entry)
         if r.get('vacuity') == 'undecided':
             fe.setdefault('notes', []).append(f'{case}: vacuity check undecided')
 
